@@ -758,3 +758,352 @@ def c14_case(rng):
             "expect": [(w, pos + off + 1, col) for (w, off, col) in expect],
             "col_exact": col_exact, "comment_before": "fault-after-inline-comment" in lay.features,
             "features": sorted(lay.features), "nlines": nlines}
+
+
+# =====================================================================================
+# C14, last clause: __LINE__ / __FILE__ in every position of a macro expansion
+#
+# "__LINE__ and __FILE__ expand to the line and file where they are written": for a __LINE__ / __FILE__ that reaches the text
+# through macros that is the line / file of the outermost macro use written in the source text - whatever the route: plain in a
+# body, operand of '##' (left, right, in the middle) or of '#', through object-like aliases (#define LN __LINE__, aliases of
+# aliases), through a call of another macro in the body (plain, pasted, stringified), as an argument of a call (in the text or in a
+# body), and wherever the #define stands (same file any distance above, a header, behind a conditional, continued over several
+# lines, re-defined after #undef) and wherever the use stands (main file, included file, CRLF file, several uses on one line).
+# The same position is what a preprocessor diagnostic raised during the expansion has to name (EmptyArgument 10013,
+# RecursiveMacro 10014).
+#
+# The generator writes bodies as small trees and computes the expected text of every use itself (eval below): no expander, no
+# model - substitution of parameters, '##' = gluing, '#' = quoting, __LINE__ -> line of the use, __FILE__ -> "file of the use".
+
+class LineMacros:
+    LITS = ["_v", "_w", "tag_", "x", "k1", "_t_", "q", "_n0", "7"]
+
+    def __init__(self, rng):
+        self.rng = rng
+        self.lay = Layout(rng)          # layout noise (comment blocks, defines, conditionals, includes, strings over lines)
+        self.noise_names = ["inc%d.sqf" % i for i in range(1, 4)]
+        self.macros = {}                # name -> (params, items): the table at this point of the text, in the generator's view
+        self.banned = set()             # names a body under construction must not refer to
+        self.features = set()
+        self.uses = []                  # [marker, file, line (1-based), expected text of the line, macros it goes through, away from their defines]
+        self.where = {}                 # name -> (file, line) of its latest #define
+        self.cur = ("m.sqf", 0)
+        self.diags = []                 # [code, file, line]
+        self.nfile = 0
+        self.nmac = 0
+        self.nuse = 0
+
+    # ------------------------------------------------------------ expected text
+    def ev(self, it, env, L, F, diags):
+        t = it[0]
+        if t == "lit":
+            return it[1]
+        if t == "par":
+            return env[it[1]]
+        if t == "line":
+            return str(L)
+        if t == "file":
+            return '"' + F + '"'
+        if t == "obj":
+            return self.evbody(it[1], [], L, F, diags)
+        if t == "call":
+            args = []
+            for a in it[2]:
+                if not a:
+                    diags.add((10013, F, L))        # an argument without text: EmptyArgument, named at the use
+                args.append(" ".join(self.ev(x, env, L, F, diags) for x in a))
+            return self.evbody(it[1], args, L, F, diags)
+        if t == "paste":
+            return "".join(self.ev(x, env, L, F, diags) for x in it[1])
+        if t == "str":
+            return '"' + self.ev(it[1], env, L, F, diags) + '"'
+        raise ValueError(t)
+
+    def evbody(self, name, args, L, F, diags):
+        params, items, wrap = self.macros[name]
+        env = dict(zip(params or [], args))
+        txt = [self.ev(x, env, L, F, diags) for x in items]
+        return "[ " + ", ".join(txt) + " ]" if wrap else " ".join(txt)
+
+    # ------------------------------------------------------------ source text
+    def src(self, it):
+        t = it[0]
+        if t in ("lit", "par"):
+            return it[1]
+        if t == "line":
+            return "__LINE__"
+        if t == "file":
+            return "__FILE__"
+        if t == "obj":
+            return it[1]
+        if t == "call":
+            return it[1] + "(" + ",".join(" ".join(self.src(x) for x in a) for a in it[2]) + ")"
+        if t == "paste":
+            return "##".join(self.src(x) for x in it[1])
+        if t == "str":
+            return "#" + self.src(it[1])
+        raise ValueError(t)
+
+    # ------------------------------------------------------------ pieces
+    def objs(self):
+        return sorted(n for n, m in self.macros.items() if m[0] is None and n not in self.banned)
+
+    def funs(self):
+        return sorted(n for n, m in self.macros.items() if m[0] is not None and n not in self.banned)
+
+    def refs(self, it):
+        """names of the macros an item refers to"""
+        t = it[0]
+        if t == "obj":
+            return {it[1]}
+        if t == "call":
+            return {it[1]}.union(*[self.refs(x) for a in it[2] for x in a])
+        if t == "paste":
+            return set().union(*[self.refs(x) for x in it[1]])
+        if t == "str":
+            return self.refs(it[1])
+        return set()
+
+    def reaches(self, name):
+        """the macros whose expansion can get to [name] (a re-definition of [name] must not refer to them: no recursion)"""
+        out, grew = {name}, True
+        while grew:
+            grew = False
+            for n, m in self.macros.items():
+                if n not in out and any(self.refs(x) & out for x in m[1]):
+                    out.add(n)
+                    grew = True
+        return out
+
+    def pos_atom(self, allow_file=True):
+        """__LINE__ / __FILE__ directly or through an object-like macro"""
+        r = self.rng
+        k = r.random()
+        o = self.objs()
+        if k < 0.35 and o:
+            self.features.add("through-object-like-alias")
+            return ("obj", r.choice(o))
+        if k < 0.5 and allow_file:
+            return ("file",)
+        return ("line",)
+
+    def arg(self, params, in_body):
+        """one argument of a call: a list of items (empty list = empty argument)"""
+        r = self.rng
+        k = r.random()
+        if k < 0.3 and params:
+            return [("par", r.choice(params))]
+        if k < 0.55:
+            self.features.add("line-macro-as-argument-in-a-body" if in_body else "line-macro-as-argument")
+            return [self.pos_atom(allow_file=False)]
+        if k < 0.62:
+            self.features.add("empty-argument-in-a-body" if in_body else "empty-argument")
+            return []
+        f = self.funs()
+        if k < 0.72 and f and not in_body:
+            self.features.add("call-as-argument")
+            n = r.choice(f)
+            return [("call", n, [[("lit", r.choice(self.LITS))] for _ in self.macros[n][0]])]
+        return [("lit", r.choice(self.LITS))]
+
+    def call(self, params, in_body):
+        r = self.rng
+        n = r.choice(self.funs())
+        return ("call", n, [self.arg(params, in_body) for _ in self.macros[n][0]])
+
+    def operand(self, params):
+        """operand of '##' / '#': a single word, or a macro name with its argument list"""
+        r = self.rng
+        k = r.random()
+        if k < 0.3 and params:
+            return ("par", r.choice(params))
+        if k < 0.62:
+            return self.pos_atom(allow_file=r.random() < 0.3)
+        if k < 0.77 and self.funs():
+            self.features.add("call-as-operand-of-hash")
+            return self.call(params, True)
+        return ("lit", r.choice(self.LITS))
+
+    def body_item(self, params):
+        r = self.rng
+        k = r.random()
+        if k < 0.34:
+            n = r.choice([2, 2, 2, 3])
+            ops = [self.operand(params) for _ in range(n)]
+            # at least one operand is (or leads to) __LINE__/__FILE__ in most pastes: that is what the family is about
+            if r.random() < 0.8 and not any(o[0] in ("line", "file", "obj", "call") for o in ops):
+                ops[r.randrange(n)] = self.pos_atom(allow_file=False)
+            for i, o in enumerate(ops):
+                if o[0] in ("line", "file", "obj"):
+                    self.features.add("line-macro-%s-of-paste" % ("left" if i == 0 else ("right" if i == n - 1 else "in-the-middle")))
+            return ("paste", ops)
+        if k < 0.48:
+            o = self.operand(params)
+            if o[0] in ("line", "file", "obj"):
+                self.features.add("line-macro-operand-of-stringify")
+            return ("str", o)
+        if k < 0.62:
+            self.features.add("line-macro-plain-in-body")
+            return self.pos_atom()
+        if k < 0.76 and self.funs():
+            self.features.add("call-in-body")
+            return self.call(params, True)
+        if k < 0.9 and params:
+            return ("par", r.choice(params))
+        return ("lit", r.choice(self.LITS))
+
+    def new_body(self, params):
+        r = self.rng
+        if params is None:
+            k = r.random()
+            o = self.objs()
+            if k < 0.3:
+                return [("line",)], False
+            if k < 0.4:
+                return [("file",)], False
+            if k < 0.55 and o:
+                self.features.add("alias-of-alias")
+                return [("obj", r.choice(o))], False
+            return [self.body_item([]) for _ in range(r.randint(1, 2))], r.random() < 0.4
+        return [self.body_item(params) for _ in range(r.randint(1, 3))], r.random() < 0.5
+
+    def define_lines(self, name=None):
+        """lines of one #define (single line, continued over several lines, or behind a conditional with a decoy in the dead branch)"""
+        r = self.rng
+        if name is None:
+            self.nmac += 1
+            name = "Z%s%d" % (r.choice("UAQ"), self.nmac)
+            params = None if r.random() < 0.35 else r.sample(["n", "a", "b"], r.choice([1, 1, 2]))
+        else:
+            params = self.macros[name][0]       # a re-definition keeps the kind and the arity
+            if params is not None:
+                params = list(params)
+            self.banned = self.reaches(name)
+        items, wrap = self.new_body(params)
+        self.banned = set()
+        head = "#define " + name + ("(" + ",".join(params) + ")" if params is not None else "")
+        parts = [self.src(x) for x in items]
+        if wrap:
+            parts = ["["] + [p + "," for p in parts[:-1]] + [parts[-1], "]"]
+        k = r.random()
+        if k < 0.2 and len(parts) > 1:
+            self.features.add("define-continued-over-several-lines")
+            cut = r.randrange(1, len(parts))
+            lines = [head + " " + " ".join(parts[:cut]) + " \\", r.choice(["  ", "\t", ""]) + " ".join(parts[cut:])]
+            if r.random() < 0.4:
+                lines = [head + " \\"] + ["    " + lines[0][len(head) + 1:], lines[1]]
+        else:
+            lines = [head + " " + " ".join(parts)]
+        if k > 0.85:
+            self.features.add("define-behind-a-conditional")
+            decoy = head + " " + r.choice(["wrong_branch", "0", "n##_dead" if params and "n" in params else "dead"])
+            if r.random() < 0.5:
+                lines = ["#ifdef NOT_DEFINED_%d" % r.randint(0, 9), decoy, "#else"] + lines + ["#endif"]
+            else:
+                lines = ["#ifndef NOT_DEFINED_%d" % r.randint(0, 9)] + lines + ["#else", decoy, "#endif"]
+        self.macros[name] = (params, items, wrap)
+        self.where[name] = (self.cur[0], self.cur[1] + 1)
+        return lines
+
+    def use_line(self, fname, idx):
+        """one line of text with uses of the macros defined so far; its expected text is computed here"""
+        r = self.rng
+        self.nuse += 1
+        marker = "u%d" % self.nuse
+        items = [("line",)]
+        for _ in range(r.choice([1, 1, 2, 3])):
+            k = r.random()
+            if k < 0.55 and self.funs():
+                items.append(self.call([], False))
+            elif k < 0.8 and self.objs():
+                items.append(("obj", r.choice(self.objs())))
+            elif k < 0.9:
+                items.append(("file",))
+            else:
+                items.append(("line",))
+        if len(items) > 2:
+            self.features.add("several-uses-on-one-line")
+        F, L = "/T/" + fname, idx + 1
+        d = set()
+        exp = marker + " = [" + ", ".join(self.ev(x, {}, L, F, d) for x in items) + "];"
+        for x in sorted(d):
+            self.diags.append(list(x))
+        names, grew = set().union(*[self.refs(x) for x in items]), True
+        while grew:
+            more = set().union(*[self.refs(x) for n in names for x in self.macros[n][1]]) - names
+            names |= more
+            grew = bool(more)
+        away = bool(names) and all(self.where[n][0] != fname or abs(L - self.where[n][1]) > 6 for n in names)
+        self.uses.append([marker, fname, L, exp, len(names), away])
+        return r.choice(["", "", " ", "\t", "    "]) + marker + " = [" + ", ".join(self.src(x) for x in items) + "];" + r.choice(["", "", " // c", " /* c */"])
+
+    def gen_file(self, name, nelems, depth):
+        r = self.rng
+        lines = []
+        self.lay.files[name] = lines
+        for _ in range(nelems):
+            k = r.random()
+            if k < 0.25:
+                lines += self.lay.element(0, depth, self.noise_names)
+            elif k < 0.5:
+                self.cur = (name, len(lines))
+                lines += self.define_lines()
+            elif k < 0.56 and self.macros:
+                self.features.add("re-definition-after-undef")
+                n = r.choice(sorted(self.macros))
+                lines.append("#undef " + n)
+                self.cur = (name, len(lines))
+                lines += self.define_lines(n)
+            elif k < 0.66 and depth < 2 and self.nfile < 3:
+                self.nfile += 1
+                inc = "lm%d.hpp" % self.nfile
+                self.features.add("defines-and-uses-in-an-included-file")
+                lines.append('#include "/v/%s"' % inc)
+                self.gen_file(inc, r.randint(1, 6), depth + 1)
+            elif k < 0.72:
+                lines += [""] * r.randint(1, 5)
+            else:
+                if depth > 0:
+                    self.features.add("use-in-an-included-file")
+                lines.append(self.use_line(name, len(lines)))
+        return lines
+
+
+def linemacro_case(rng):
+    g = LineMacros(rng)
+    main = g.gen_file("m.sqf", rng.choice([3, 6, 10, 16]), 0)
+    # every case ends with a definition that has __LINE__ behind '##' or '#', some distance, and uses on two different lines
+    while len([u for u in g.uses if u[1] == "m.sqf"]) < 2 or not g.funs():
+        if not g.funs() or rng.random() < 0.3:
+            g.cur = ("m.sqf", len(main))
+            main += g.define_lines()
+        main += [""] * rng.randint(0, 3)
+        if g.funs():
+            main.append(g.use_line("m.sqf", len(main)))
+    kind = "linemacro"
+    if rng.random() < 0.12:
+        # a macro that uses itself (directly or through a second one; plain, pasted or stringified): RecursiveMacro is an error of
+        # the use, named where the use is written
+        kind = "linemacro-recursive"
+        g.features.add("recursive-macro")
+        shape = rng.randrange(5)
+        fl = rng.random() < 0.5
+        p, a = ("(n)", "(1)") if fl else ("", "")
+        body = {0: "x##RX" + p, 1: "[RX%s]" % p, 2: "#RY" + p, 3: "RY" + p, 4: "q RX" + p}[shape]
+        main += ["#define RX%s %s" % (p, body)]
+        if shape in (2, 3):
+            main += ["#define RY%s %s" % (p, rng.choice(["RX" + p, "k##RX" + p]))]
+        main += [""] * rng.randint(0, 4)
+        g.diags.append([10014, "/T/m.sqf", len(main) + 1])
+        main.append(rng.choice(["", "  "]) + "r1 = " + rng.choice(["RX", "RY"] if shape in (2, 3) else ["RX"]) + a + ";")
+    for _ in range(rng.randint(0, 2)):
+        main += g.lay.code_line()
+    crlf = {n: rng.random() < 0.25 for n in g.lay.files}
+    if any(crlf.values()):
+        g.features.add("crlf")
+    files = {}
+    for n, ls in g.lay.files.items():
+        nl = "\r\n" if crlf[n] else "\n"
+        files[n] = nl.join(ls) + (nl if rng.random() < 0.8 else "")
+    return {"kind": kind, "main": "m.sqf", "files": files, "uses": g.uses, "diags": g.diags,
+            "features": sorted(g.features | set("noise:" + f for f in g.lay.features))}
